@@ -240,7 +240,7 @@ def e4(cx):
         for n in terms:
             n_sites += 1
             root, steps = access_path(n['args'][0])
-            if '!take' not in steps and not roles.TERMINAL_ON_CLONED_HANDLE.get(label):
+            if '!take' not in steps and not roles.TERMINAL_ON_CLONED_HANDLE.get(roles.stable_label(cx, fn)):
                 bad = n
         if bad is not None:
             res.append(Finding(ID, 'E4', label, False,
